@@ -91,6 +91,13 @@ def fixed_cases(tier):
                     "variants": [{"ident": "V%d" % i, "disc": str(v)} for i, v in enumerate(vals)]}
             cfg = S.simple_config(E.ALL_FEATURES, {"as_str": "table", "iter": "table"} if len(vals) % 2 else {})
             out.append({"spec": spec, "cfg": cfg, "sorted": ["value"], "match_excluded": True, "seed": 9})
+    # regression of repaired defect D7 (a33ee47): as_str named like a prelude trait method, with Debug / Display / IntoStr
+    for nm in ("to_owned", "to_string", "clone", "fmt", "as_ref", "eq"):
+        spec = {"repr": "i16", "vis": "pub", "ident": "E", "enum_attrs": [],
+                "variants": [{"ident": "V%d" % i, "disc": str(v)} for i, v in enumerate([-3, -2, 5, 6])]}
+        cfg = S.simple_config(["as_str", "Debug", "Display", "IntoStr", "iter", "next", "next_back"], {"iter": "next_and_back"},
+                              {"as_str": nm, "next": "clone" if nm != "clone" else "to_owned", "next_back": "default"})
+        out.append({"spec": spec, "cfg": cfg, "sorted": None, "match_excluded": True, "seed": 10})
     for r in M.REPRS:
         lo, hi = M.repr_domain(r)
         for shape in ("gapless", "holes"):
